@@ -107,6 +107,19 @@ func ZZ_C02_rounds() {
 			}
 		}
 	}
+	// "including after node ... tainting": one more node carries a NoSchedule taint the pod does not
+	// tolerate; a daemon pod may still sit on it (created before the taint, by either replica set)
+	// and must be gone in the end
+	c.Nodes = append(c.Nodes, &corev1.Node{ObjectMeta: metav1.ObjectMeta{Name: "tainted", Labels: map[string]string{}},
+		Spec: corev1.NodeSpec{Taints: []corev1.Taint{{Key: "dedicated", Value: "db", Effect: corev1.TaintEffectNoSchedule}}}})
+	switch nondet.String("taintedNode.pod", "none", "old", "new") {
+	case "old":
+		c.Pods = append(c.Pods, zzPod("old-tainted", "tainted", "foo-a", hash("A"), 0, corev1.PodRunning, true, nondet.Base().Add(-time.Hour)))
+	case "new":
+		if newExists {
+			c.Pods = append(c.Pods, zzPod("new-tainted", "tainted", "foo-b", hash("B"), 0, corev1.PodRunning, true, nondet.Base().Add(-time.Hour)))
+		}
+	}
 	c.EDS = append(c.EDS, ds)
 
 	edsRec, _ := edsctrl.NewReconciler(edsctrl.ReconcilerOptions{DefaultValidationMode: datadoghqv1alpha1.ExtendedDaemonSetSpecStrategyCanaryValidationModeAuto}, c, c.Scheme(), logr.Logger{}, &fakeapi.Recorder{})
@@ -136,7 +149,7 @@ func ZZ_C02_rounds() {
 		}
 		seen := map[string]bool{}
 		for _, p := range c.Pods {
-			if p.Annotations[datadoghqv1alpha1.MD5ExtendedDaemonSetAnnotationKey] != hash("B") || seen[p.Spec.NodeName] {
+			if p.Annotations[datadoghqv1alpha1.MD5ExtendedDaemonSetAnnotationKey] != hash("B") || seen[p.Spec.NodeName] || p.Spec.NodeName == "tainted" {
 				return false
 			}
 			seen[p.Spec.NodeName] = true
